@@ -1,11 +1,11 @@
 """Scenario generator for C07 (connect/accept pairing, refusal, endpoint views, cross-talk)
-and C13 (NAT): builds on gen/net_gen.py (whose families keep their behaviour byte for byte
-— nothing there is changed) and adds
+and C13 (NAT): builds on gen/net_gen.py and adds
 
   hs       one or two acceptors, 1-5 clients each: SYNs queued before the accept is posted, accepts
            posted before the SYN, more connects than accepts and vice versa, all three accept overloads,
            re-accepting into a reused socket (closed first, or still open), acceptor close / close0 /
-           cancel / re-open in mid-flight, local/remote queried in every connect and accept handler,
+           cancel / destroy / re-open in mid-flight, local/remote queried in every connect and accept handler
+           and again from I/O completion handlers (after payload / ACKs crossed the NAT hops),
            data in both directions on every pair with stream ids unique per socket
   refuse   connects to endpoints nobody listens on: no socket bound; TCP socket bound, not listening;
            acceptor bound, never listening; acceptor closed (close / close0 / destroy) earlier; listen
@@ -14,9 +14,10 @@ and C13 (NAT): builds on gen/net_gen.py (whose families keep their behaviour byt
            local / read / write on the refused socket and (often) a second connect of that socket to
            a live acceptor
   natmix   the above over configurations with NAT on the client side, on both sides, several nodes
-           behind ONE external address, plus UDP datagrams between natted and public nodes
+           behind ONE external address, two NAT hops on one outgoing route, plus UDP datagrams between natted
+           and public nodes (senders bound explicitly, to port 0, or implicitly by send_to)
 
-Every route holds at least one queue (out: probe [nat] queue [dropper]; in: queue probe; net: queue)."""
+Every route holds at least one queue (out: probe [nat [nat]] queue [nat] [dropper]; in: queue probe; net: queue)."""
 import random
 from net_gen import Prog, ep, BW, LAT, MTU
 import net_gen
@@ -24,7 +25,7 @@ import net_gen
 
 class HCfg:
     """nodes n0..: n0 (and n1 when `two_srv`) carry the acceptors"""
-    def __init__(self, rng, nnodes=None, nat="random", v6_p=0.2, multi_p=0.3, fast_p=0.25, drop_p=0.05, small_cap_p=0.05):
+    def __init__(self, rng, nnodes=None, nat="random", v6_p=0.2, multi_p=0.3, fast_p=0.25, drop_p=0.05, small_cap_p=0.05, nat2_p=0.15):
         self.rng = rng; self.lines = []; self.nodes = []; self.ext = {}; self.pcap_on = False
         n = nnodes or rng.choice([2, 3, 3, 4, 5])
         if not LOSS: drop_p = 0.0; small_cap_p = 0.0
@@ -69,10 +70,18 @@ class HCfg:
                     elif nat == "shared" and not server: e = shared
                     elif nat == "sharedboth": e = shared if not server else "99.0.0.%d" % rng.randrange(1, 250)
                     elif nat == "random" and rng.random() < 0.4: e = rng.choice(pool)
+                e2 = None
                 if e:
                     self.lines.append("hop nat%d nat ext=%s" % (hid, e))
                     out.append("nat%d" % hid); self.ext[ip] = e
+                    if rng.random() < nat2_p:
+                        # a second NAT hop further down the same outgoing route (right behind the first one, or behind
+                        # the access queue): the receivers see the address of the LAST one
+                        e2 = "99.4.%d.%d" % (idx, rng.randrange(1, 250)) if rng.random() < 0.7 else rng.choice(pool)
+                        self.lines.append("hop nat%db nat ext=%s" % (hid, e2)); self.ext[ip] = e2
+                        if rng.random() < 0.5: out.append("nat%db" % hid); e2 = None
                 out.append("qo%d" % hid)
+                if e2: out.append("nat%db" % hid)
                 if rng.random() < drop_p:
                     which = sorted(rng.sample(range(14), rng.randrange(1, 4)))
                     self.lines.append("hop d%d dropper drop=%s" % (hid, ",".join(map(str, which))))
@@ -113,8 +122,11 @@ class Ids:
         self.port += 1; return self.port
 
 
-def io_chain(rng, P, s, ctx, stream, total, nreads, close_p=0.0):
-    """writer chain and reader chain on socket s, both starting in ctx"""
+def io_chain(rng, P, s, ctx, stream, total, nreads, close_p=0.0, late_views=True):
+    """writer chain and reader chain on socket s, both starting in ctx. `late_views`: the socket's endpoint views
+    are queried again AFTER packets of the connection crossed the routes (and their NAT hops) in both directions:
+    in the completion handler of the last write, in the first and in the last read handler (the views of an
+    established connection never change: the monitors evaluate every recorded query)"""
     left = total; c = ctx
     while left > 0:
         ln = min(left, rng.choice([1, 10, 60, 100, 700, 1475, 3000]))
@@ -122,8 +134,9 @@ def io_chain(rng, P, s, ctx, stream, total, nreads, close_p=0.0):
         P.do(c, "%s.write h%d stream=%d len=%d bufs=%d" % (s, h, stream, ln, rng.choice([1, 1, 2, 3])))
         c = "h%d" % h; left -= ln
     wend = c
+    if late_views and total > 0: late_view(P, wend, s)
     c = ctx
-    for _ in range(nreads):
+    for i in range(nreads):
         h = P.h()
         if rng.random() < 0.15:
             P.do(c, "%s.wait_read h%d" % (s, h))
@@ -131,9 +144,15 @@ def io_chain(rng, P, s, ctx, stream, total, nreads, close_p=0.0):
         else:
             P.do(c, "%s.read h%d cap=%d bufs=%d" % (s, h, rng.choice([1, 7, 48, 49, 100, 1475, 4096, 65536]), rng.choice([1, 1, 2, 4])))
         c = "h%d" % h
+        if late_views and i in (0, nreads - 1): late_view(P, c, s)
     if rng.random() < close_p:
         P.do(wend if total > 0 else c, "%s.close" % s)
     return wend, c
+
+
+def late_view(P, ctx, s):
+    """local / remote of s once more, from an I/O completion handler"""
+    P.do(ctx, "%s.remote" % s); P.do(ctx, "%s.local" % s)
 
 
 def views(P, ctx, s, a=None, rng=None):
@@ -222,11 +241,16 @@ def acceptor_group(rng, cfg, P, ids, port, srv=None, nclients=None, lifecycle=Tr
         x = rng.random()
         if x < 0.3: P.do(c, "%s.cancel" % a)
         else:
-            P.do(c, "%s.%s" % (a, rng.choice(["close", "close0", "close"])))
+            # (destroy: the acceptor object goes away with connects dialled to it still pending — SYN in flight or
+            # queued —; later ops on it are skipped by the harness; a NEW acceptor object may take the endpoint)
+            kill = rng.choice(["close", "close0", "close", "destroy"])
+            P.do(c, "%s.%s" % (a, kill))
             if rng.random() < 0.5:
                 # re-open (after the close) on the same or another port and go on accepting
                 c2 = c if rng.random() < 0.5 else P.at(tc + rng.choice([77, 1000077, 400000077]))
                 port2 = port if rng.random() < 0.6 else port + 50
+                if kill == "destroy":
+                    a = P.acc(); P.do("top", "%s.new %s" % (a, srv[0]))
                 P.do(c2, "%s.open %s" % (a, "v6" if six else "v4")); P.do(c2, "%s.bind %s" % (a, ep(sip, port2))); P.do(c2, "%s.listen" % a)
                 h = P.h(); ss = P.sock(); P.do("top", "%s.new %s" % (ss, srv[0]))
                 P.do(c2, "%s.%s %s h%d" % (a, rng.choice(["accept", "accept_ep"]), ss, h))
@@ -328,11 +352,21 @@ def udp_nat(rng, cfg, P, base_port):
         port = base_port + (rng.randrange(2) if rng.random() < 0.5 else k)       # equal ports on different nodes on purpose
         bip = ip if rng.random() < 0.7 else "0.0.0.0"
         if bip == "0.0.0.0": ip = cfg.v4(nd[0])[0]
-        P.do("top", "%s.bind %s" % (u, ep(bip, port)))
-        if rng.random() < 0.4: P.do("top", "%s.local" % u)
+        # the sender's "original port" may also be one the system chose: an explicit bind of port 0, or no bind at all
+        # (send_to binds 0.0.0.0:0 implicitly; the socket tells its endpoint right after its first datagram). Such
+        # sockets only send: nobody knows their port beforehand
+        x = rng.random() if k > 0 else 1.0
+        if x < 0.2: port = 0
+        elif x < 0.3: port = None; ip = cfg.v4(nd[0])[0]
+        if port is not None:
+            P.do("top", "%s.bind %s" % (u, ep(bip, port)))
+            if rng.random() < 0.4 or port == 0: P.do("top", "%s.local" % u)
         socks.append((u, nd[0], ip, port))
     did = base_port * 100
+    asked = set()
+    dests = [x for x in socks if x[3]]
     for (u, nd, ip, port) in socks:
+        if port is None: continue
         c = "top"
         for _ in range(rng.choice([2, 4, 8, 12])):
             h = P.h()
@@ -344,12 +378,14 @@ def udp_nat(rng, cfg, P, base_port):
             c = "h%d" % h
             if rng.random() < 0.1: P.do(c, "%s.local" % u)
     for _ in range(rng.choice([2, 4, 8])):
-        (u, nd, ip, port) = rng.choice(socks); (v, nd2, ip2, port2) = rng.choice(socks)
+        (u, nd, ip, port) = rng.choice(socks); (v, nd2, ip2, port2) = rng.choice(dests)
         c = "top" if rng.random() < 0.4 else P.at(rng.choice(TIMES))
         for _ in range(rng.choice([1, 1, 2, 5])):
             did += 1
             ln = rng.choice([0, 1, 10, 48, 49, 100, 472, 1000, 1472, 3000])
             P.do(c, "%s.send_to %s len=%d bufs=%d id=%d" % (u, ep(ip2, port2), ln, rng.choice([1, 1, 2]), did))
+            if port is None and (u, c) not in asked:
+                P.do(c, "%s.local" % u); asked.add((u, c))
 
 
 FAMILIES = ["hs", "refuse", "natmix", "natudp"]
